@@ -234,7 +234,54 @@ def check_ws_identity(ctx):
                                'whitespace test uses containment', False,
                                f'`{src(c)}` compares a token type with T.Whitespace by identity/equality: a Newline (Whitespace.Newline) is not '
                                'recognised as whitespace, so a line break instead of a blank changes the result')
-    ctx.ob('R11.5', 'inventory', 'sqlparse/sql.py', f'no identity/equality test against T.Whitespace in the parse path ({n} found)', n == 0, '')
+    # membership in a tuple/list of token types is equality with its elements: T.Whitespace in such a display does not cover Newline
+    NLT = TT(('Text', 'Whitespace', 'Newline'))
+    m = 0
+    for f in repo.funcs.values():
+        if f.mod.name not in PARSE_MODULES:
+            continue
+        parents = {}
+        for x in ast.walk(f.node):
+            for ch in ast.iter_child_nodes(x):
+                parents[ch] = x
+        lenv = VC._local_const_env(ctx, f, f.cls)
+        for c in own_nodes(f.node):
+            if not (isinstance(c, ast.Compare) and len(c.ops) == 1 and isinstance(c.ops[0], (ast.In, ast.NotIn))):
+                continue
+            try:
+                v = folder.eval(c.comparators[0], f.mod, lenv, f.cls)
+            except NotConst:
+                continue
+            if isinstance(v, TT) or not isinstance(v, (tuple, list)) or not v or not all(isinstance(x, TT) for x in v):
+                continue
+            anc = [x for x in v if x != NLT and x.contains(NLT)]
+            if not anc or NLT in v:
+                continue
+            m += 1
+            top = c
+            while isinstance(parents.get(top), (ast.BoolOp, ast.UnaryOp)):
+                top = parents[top]
+            why = ACCEPTED_WS_MEMBERSHIP.get((f.short, canon(top)))
+            key = f'{f.short}:{canon(top)[:70]}'
+            loc = f'{f.mod.relpath}:{c.lineno}'
+            if why:
+                ctx.ob('R11.5', key, loc, 'membership test on a display of token types: accepted', 'accepted', why)
+            else:
+                ctx.ob('R11.5', key, loc, 'whitespace test uses containment', False,
+                       f'`{src(c)}` tests membership in the display {tuple(repr(x) for x in v)}: that is equality with {anc[0]!r}, which a line break '
+                       '(Whitespace.Newline) does not satisfy -- a line break instead of a blank between two tokens changes the outcome')
+    ctx.ob('R11.5', 'inventory', 'sqlparse/sql.py', f'no identity/equality test against T.Whitespace in the parse path ({n} found; {m} membership tests in displays looked at)', n == 0, '')
+
+
+def canon(node):
+    return ' '.join(src(node).split())
+
+
+ACCEPTED_WS_MEMBERSHIP = {
+    ('engine.statement_splitter.StatementSplitter.process', 'self.consume_ws and ttype not in EOS_TTYPE'):
+        'decides only where the whitespace behind a terminator goes: blanks and a -- comment stay with the finished statement, a line break starts the '
+        'next one; the statements, their types and their significant tokens are the same (split() strips both)',
+}
 
 
 def check_is_keyword_upper(ctx):
